@@ -15,7 +15,8 @@ import (
 //	"T" the native type, "*T" pointer to it, "*Opt" the optional wrapper itself,
 //	for Int64/UInt64 additionally "int","uint","int64","uint64","*int64","*uint64",
 //	for FileMode "os.FileMode","*os.FileMode","uint32";
-//	"other:<type>" = a type the switch does not list.
+//	"other:<type>" = a type the switch does not list;
+//	"nil" = the untyped nil interface value, X(nil) (in the property's domain: nil ↦ unset).
 //
 // Nil = the pointer argument is nil. I/U/B/S carry the value (I for signed, U for unsigned).
 type ctorIn struct {
@@ -51,7 +52,7 @@ func runCtor(in ctorIn) (o ctorObs) {
 			o = ctorObs{Panic: firstLine(r)}
 		}
 	}()
-	var arg interface{}
+	var arg interface{} // stays the untyped nil for Arg "nil" (and the legacy "other:nil")
 	switch in.Ctor {
 	case "String":
 		switch in.Arg {
@@ -289,14 +290,14 @@ func runCtor(in ctorIn) (o ctorObs) {
 }
 
 var ctorArgs = map[string][]string{
-	"String":   {"T", "*T", "*Opt", "other:[]byte", "other:nil"},
-	"Int":      {"T", "*T", "*Opt", "other:int64", "other:int32"},
-	"Int32":    {"T", "*T", "*Opt", "other:int"},
-	"UInt32":   {"T", "*T", "*Opt", "other:int"},
-	"Int64":    {"int", "uint", "int64", "uint64", "*int64", "*uint64", "*Opt", "other:int32", "other:uint32", "other:*int"},
-	"UInt64":   {"int", "uint", "int64", "uint64", "*int64", "*uint64", "*Opt", "other:int32", "other:uint32", "other:*int"},
-	"Bool":     {"T", "*T", "*Opt", "other:int"},
-	"FileMode": {"os.FileMode", "*os.FileMode", "*Opt", "uint32", "other:int"},
+	"String":   {"T", "*T", "*Opt", "nil", "other:[]byte"},
+	"Int":      {"T", "*T", "*Opt", "nil", "other:int64", "other:int32"},
+	"Int32":    {"T", "*T", "*Opt", "nil", "other:int"},
+	"UInt32":   {"T", "*T", "*Opt", "nil", "other:int"},
+	"Int64":    {"int", "uint", "int64", "uint64", "*int64", "*uint64", "*Opt", "nil", "other:int32", "other:uint32", "other:*int"},
+	"UInt64":   {"int", "uint", "int64", "uint64", "*int64", "*uint64", "*Opt", "nil", "other:int32", "other:uint32", "other:*int"},
+	"Bool":     {"T", "*T", "*Opt", "nil", "other:int"},
+	"FileMode": {"os.FileMode", "*os.FileMode", "*Opt", "uint32", "nil", "other:int"},
 }
 
 var ctorOrder = []string{"String", "Int", "Int32", "UInt32", "Int64", "UInt64", "Bool", "FileMode"}
